@@ -24,17 +24,23 @@ ID = "C14"
 OPTIONS_MAY_LEAK = True
 CASE_BUDGET_S = 300
 
-ENTER = {"E1": {}, "E2": {"retain_names": False}, "E3": {"sort_graded": False, "display_exponent": "^"}}
+ENTER = {"E1": {}, "E2": {"retain_names": False}, "E3": {"sort_graded": False, "display_exponent": "^"},
+         "ED": {"retain_names": False}}
+# "ED": the manager object is created first, then PRE["ED"] is set through set_options, then the block is entered
+PRE = {"ED": {"retain_coefficients": True}}
 SET = {"S1": {"retain_coefficients": True},
        "S2": {"retain_names": True, "sort_graded": True, "display_exponent": "**"}}
 BAD_ENTER = {"retain_coefficients": True, "sort_reverse": True, "no_such_option": 1}
 BAD_SET = {"display_inverse": False, "retain_names": False, "also_not_an_option": 0}
-EVENTS = ["E1", "E2", "E3", "EB", "XO", "XE", "XE2", "XB", "S1", "S2", "SB", "MU"]
+# unknown names of every flavour: unlike any option, near misses of one or of several options, other case, blanks
+BAD_NAMES = ["no_such_option", "display_grade", "display_revers", "Display_graded", "sort_reversed", "sort_grade", "retain_name",
+             "varname", "graded", "sort graded", "retain_names_", "_retain_names", "displayexponent"]
+EVENTS = ["E1", "E2", "E3", "EB", "XO", "XE", "XE2", "XB", "S1", "S2", "SB", "MU", "ED", "DC"]
 MAXNEST = 3
 DEPTH = {"quick": 6, "thorough": 8}
 
 META = {
-    "rule": "every history over the 12-event alphabet (3 enters, bad enter, normal exit, exit by exception through "
+    "rule": "every history over the 14-event alphabet (3 enters, an enter whose manager was created before a set_options call, two calls of a function decorated with global_options, bad enter (13 unknown names x 3 positions), normal exit, exit by exception through "
             "1 or 2 blocks, exit by a BaseException that is not an Exception, 2 set_options, bad set_options, mutate returned dicts) up to the depth bound with "
             "nesting<=3, executed on the real API; plus every edge of TLC's complete state graph of "
             "models/Options.tla replayed on the real API. A state is distinct by (options in force, stack of "
@@ -59,7 +65,7 @@ class Unwind(BaseException):
 
 
 def enabled(ev, depth):
-    if ev in ("E1", "E2", "E3", "EB"):
+    if ev in ("E1", "E2", "E3", "EB", "ED"):
         return depth < MAXNEST
     if ev in ("XO", "XE", "XB"):
         return depth >= 1
@@ -71,8 +77,11 @@ def enabled(ev, depth):
 def model_step(cur, stack, ev):
     """reference model: cur = dict, stack = list of dicts"""
     if ev in ENTER:
+        cur = dict(cur, **PRE.get(ev, {}))
         stack = stack + [dict(cur)]
         cur = dict(cur, **ENTER[ev])
+    elif ev == "DC":
+        cur = dict(cur, **SET["S1"])
     elif ev in ("XO", "XE", "XB"):
         cur, stack = dict(stack[-1]), stack[:-1]
     elif ev == "XE2":
@@ -120,6 +129,18 @@ class Interp:
         if ev in SET:
             numpoly.set_options(**SET[ev])
         elif ev == "SB":
+            for bad in BAD_NAMES:
+                for kw in ({bad: 0}, {"display_inverse": False, bad: 0}, {bad: 0, "retain_names": False}):
+                    try:
+                        numpoly.set_options(**kw)
+                    except KeyError:
+                        pass
+                    except Exception as err:  # noqa: BLE001
+                        self.complain(f"set_options({kw}) raised {type(err).__name__}, not KeyError")
+                    else:
+                        self.complain(f"set_options({kw}) did not raise")
+                    if numpoly.get_options() != self.cur:
+                        self.complain(f"set_options({kw}) was rejected but changed the options")
             try:
                 numpoly.set_options(**BAD_SET)
             except KeyError:
@@ -128,7 +149,38 @@ class Interp:
                 self.complain(f"set_options with unknown name raised {type(err).__name__}, not KeyError")
             else:
                 self.complain("set_options with unknown name did not raise")
+        elif ev == "DC":
+            before = numpoly.get_options()
+
+            @numpoly.global_options(**ENTER["E3"])
+            def decorated():
+                return numpoly.get_options()
+            numpoly.set_options(**SET["S1"])
+            want_inside = dict(self.cur, **ENTER["E3"])      # self.cur already holds SET["S1"]
+            for nth in (1, 2):
+                try:
+                    inside = decorated()
+                except Exception as err:  # noqa: BLE001
+                    self.complain(f"call {nth} of a function decorated with global_options raised {type(err).__name__}: {err}")
+                    break
+                if inside != want_inside:
+                    diff = {k: (inside.get(k), want_inside.get(k)) for k in set(inside) | set(want_inside) if inside.get(k) != want_inside.get(k)}
+                    self.complain(f"inside call {nth} of a function decorated with global_options (got, expected): {diff}")
+                if numpoly.get_options() != self.cur:
+                    self.complain(f"after call {nth} of a function decorated with global_options the options are {numpoly.get_options()}")
+            del before
         elif ev == "EB":
+            for bad in BAD_NAMES:
+                for kw in ({bad: 1}, {"sort_reverse": True, bad: 1}, {bad: 1, "retain_coefficients": True}):
+                    try:
+                        with numpoly.global_options(**kw):
+                            self.complain(f"global_options({kw}) opened a block")
+                    except KeyError:
+                        pass
+                    except Exception as err:  # noqa: BLE001
+                        self.complain(f"global_options({kw}) raised {type(err).__name__}, not KeyError")
+                    if numpoly.get_options() != self.cur:
+                        self.complain(f"global_options({kw}) was rejected but changed the options")
             opened = False
             try:
                 with numpoly.global_options(**BAD_ENTER):
@@ -163,7 +215,10 @@ class Interp:
                 self.cur, self.stack = model_step(self.cur, self.stack, ev)
                 pending = 0
                 try:
-                    with numpoly.global_options(**ENTER[ev]) as inner:
+                    manager = numpoly.global_options(**ENTER[ev])
+                    if ev in PRE:
+                        numpoly.set_options(**PRE[ev])      # between creating the manager and entering the block
+                    with manager as inner:
                         self.observe(dict(inner))
                         pending = self.block(inner)
                         if pending == "base":
@@ -253,7 +308,7 @@ def extensions(prefix, maxdepth):
 
 
 # ---- TLC binding ---------------------------------------------------------------------------
-LABEL2EV = {"Enter(1)": "E1", "Enter(2)": "E2", "Enter(3)": "E3", "EnterBad": "EB", "ExitOk": "XO",
+LABEL2EV = {"EnterDeferred": "ED", "DecoratedCalls": "DC", "Enter(1)": "E1", "Enter(2)": "E2", "Enter(3)": "E3", "EnterBad": "EB", "ExitOk": "XO",
             "ExitExc": "XE", "ExitExc2": "XE2", "ExitBase": "XB", "Set(1)": "S1", "Set(2)": "S2", "SetBad": "SB", "Mutate": "MU"}
 
 
